@@ -61,6 +61,7 @@ SeriesFails(ev) ==
 (* types; ev.fragmenter = the cached Fragmenter's list (projected like frags, keys and masses only).            *)
 KeyOf(f) == <<f.t, f.s, f.e, f.z, f.iso, f.loss6>>
 RulesOf(ev) == [ q \in 1..Len(ev.rules) |-> [cls |-> SeqToSet(ev.rules[q].cls), val |-> ev.rules[q].val6] ]
+HalfUnit(prec) == FAdd(Nano(100), IF prec = 0 THEN <<0, 500000000>> ELSE <<0, 5 * Pow10(8 - prec)>>)
 PrecSlack(prec) == IF prec < 0 THEN Micro(1) ELSE FAdd(Micro(1), IF prec = 0 THEN FInt(1) ELSE <<0, Pow10(9 - prec)>>)
 
 FragmentFails(ev) ==
@@ -91,6 +92,12 @@ FragmentFails(ev) ==
           THEN {"ion_mass_differs_from_mass_calculator"} ELSE {})
     \cup (IF \E q \in 1..Len(ev.frags) : ~FWithin(ev.frags[q].mz, ev.frags[q].recMz, slack)
           THEN {"ion_mz_differs_from_mass_calculator"} ELSE {})
+    (* with a precision p the reported values are the full-precision values of the mass calculator rounded to p        *)
+    (* decimals: never further than half a unit of the last place (+1e-7 for floating-point noise at a tie)            *)
+    \cup (IF ev.prec >= 0 /\ \E q \in 1..Len(ev.frags) : ~FWithin(ev.frags[q].mass, ev.frags[q].fullMass, HalfUnit(ev.prec))
+          THEN {"ion_mass_is_not_the_rounded_full_precision_mass"} ELSE {})
+    \cup (IF ev.prec >= 0 /\ \E q \in 1..Len(ev.frags) : ~FWithin(ev.frags[q].mz, ev.frags[q].fullMz, HalfUnit(ev.prec))
+          THEN {"ion_mz_is_not_the_rounded_full_precision_mz"} ELSE {})
     (* the other return types are projections of the same list (compared as multisets) *)
     \cup (IF BagOfSeq(ev.masses) # BagOfSeq([ q \in 1..Len(ev.frags) |-> ev.frags[q].mass ]) THEN {"return_type_mass"} ELSE {})
     \cup (IF BagOfSeq(ev.mzs) # BagOfSeq([ q \in 1..Len(ev.frags) |-> ev.frags[q].mz ]) THEN {"return_type_mz"} ELSE {})
